@@ -86,6 +86,13 @@ def compare_snapshot(snap, where, monitor='M-ARG'):
             if now != facts:
                 _log(monitor, where, '%s (a %s) changed length or element identity' % (path, kind))
                 bad += 1
+        elif kind == 'attrs':
+            now = {k: repr(v) for k, v in vars(ref).items() if not k.startswith('_') and k != 'training' and _plain(v)}
+            if now != facts:
+                ch = sorted(k for k in set(now) | set(facts) if now.get(k) != facts.get(k))
+                _log(monitor, where, 'module attribute(s) %s changed across the call: %s' % (
+                    ch, {k: (facts.get(k), now.get(k)) for k in ch}))
+                bad += 1
         elif kind == 'ndarray':
             if hashlib.blake2b(ref.tobytes(), digest_size=12).hexdigest() != facts:
                 _log(monitor, where, '%s (ndarray) changed across the call' % path)
@@ -112,10 +119,21 @@ def _out_tensors(obj, path='out'):
             yield from _out_tensors(e, '%s[%d]' % (path, i))
 
 
+def _plain(v):
+    if isinstance(v, (int, float, str, bool, type(None))):
+        return True
+    if isinstance(v, (list, tuple)):
+        return all(_plain(e) for e in v)
+    return False
+
+
 def module_state(mod):
     st = []
     for n, b in list(mod.named_buffers()) + list(mod.named_parameters()):
         st.append(('self.' + n, 'tensor', tdigest(b), b))
+    # plain configuration attributes (J, mode, o_dim, skip_hps, magbias ...): a call must not rewrite them
+    attrs = {k: repr(v) for k, v in vars(mod).items() if not k.startswith('_') and k != 'training' and _plain(v)}
+    st.append(('self.<attributes>', 'attrs', attrs, mod))
     return st
 
 
